@@ -54,11 +54,11 @@ Proof.
   intros H. apply IH in H. apply insert_link_nm in E. unfold nm_eq in *. congruence.
 Qed.
 
-Lemma move_message_nm s msg src d fl : nm_eq s (fst (move_message s msg src d fl)).
+Lemma move_message_nm s msg src su d fl : nm_eq s (fst (move_message s msg src su d fl)).
 Proof.
   unfold move_message. destruct (find_name s d); [|reflexivity].
   destruct (mb_id m =? src); [reflexivity|].
-  destruct (insert_link s msg (mb_id m) (max_uid s (mb_id m) + 1) fl) eqn:E; [|reflexivity].
+  destruct (insert_link s msg (mb_id m) (mb_next m) fl) eqn:E; [|reflexivity].
   apply insert_link_nm in E. exact E.
 Qed.
 
@@ -66,11 +66,11 @@ Lemma uidstore_one_nm s sel mode new u : nm_eq s (uidstore_one s sel mode new u)
 Proof.
   unfold uidstore_one. destruct (find_link s sel u); [|reflexivity].
   destruct (_ && _).
-  - pose proof (move_message_nm s (lk_msg l) sel SPAM (fremove NONJUNK (calc_flags (lk_flags l) new mode))) as H.
-    destruct (move_message _ _ _ _ _) as [s1 ok]. destruct ok; [exact H | reflexivity].
+  - pose proof (move_message_nm s (lk_msg l) sel u SPAM (fremove NONJUNK (calc_flags (lk_flags l) new mode))) as H.
+    destruct (move_message _ _ _ _ _ _) as [s1 ok]. destruct ok; [exact H | reflexivity].
   - destruct (_ && _); [|reflexivity].
-    pose proof (move_message_nm s (lk_msg l) sel INBOX (fremove JUNK (calc_flags (lk_flags l) new mode))) as H.
-    destruct (move_message _ _ _ _ _) as [s1 ok]. destruct ok; [exact H | reflexivity].
+    pose proof (move_message_nm s (lk_msg l) sel u INBOX (fremove JUNK (calc_flags (lk_flags l) new mode))) as H.
+    destruct (move_message _ _ _ _ _ _) as [s1 ok]. destruct ok; [exact H | reflexivity].
 Qed.
 
 Lemma fold_nm {A} (f : store -> A -> store) (l : list A) :
@@ -98,11 +98,11 @@ Proof.
   - unfold op_append. destruct (find_name s f); simpl; [|lia]. unfold store_message. am_tac.
   - unfold op_uidcopy. destruct (resolve_uids s sel set); cbn [fst]; [lia|].
     destruct (find_name s d); cbn [fst]; [|lia].
-    destruct (uidcopy_loop s sel (mb_id m) (z :: l) (max_uid s (mb_id m) + 1)) eqn:E; cbn [fst]; [|lia].
+    destruct (uidcopy_loop s sel (mb_id m) (z :: l) (mb_next m)) eqn:E; cbn [fst]; [|lia].
     apply uidcopy_loop_nm in E. unfold nm_eq in E. lia.
   - unfold op_copy. destruct (resolve_seqs s sel set); cbn [fst]; [lia|].
     destruct (find_name s d); cbn [fst]; [|lia].
-    destruct (copy_loop s sel (mb_id m) (z :: l) (max_uid s (mb_id m) + 1)) eqn:E; cbn [fst]; [|lia].
+    destruct (copy_loop s sel (mb_id m) (z :: l) (mb_next m)) eqn:E; cbn [fst]; [|lia].
     apply copy_loop_nm in E. unfold nm_eq in E. lia.
   - pose proof (fold_nm (fun s' u => uidstore_one s' sel mode fl u) (resolve_uids s sel set)
                         (fun s0 a => uidstore_one_nm s0 sel mode fl a) s) as H. unfold nm_eq in H. lia.
@@ -130,8 +130,8 @@ Proof.
       destruct (find_name s INBOX); cbn [fst]; [|lia].
       destruct (create_mailbox_row s (cb :: rb) t) as [[s1 nid]|] eqn:C; cbn [fst]; [|lia].
       apply create_row_nm in C.
-      destruct (reparent s1 (mb_id m) nid) eqn:R; cbn [fst].
-      * apply reparent_nm in R. unfold nm_eq in *. lia.
+      destruct (reparent (set_next s1 nid (mb_next m)) (mb_id m) nid) eqn:R; cbn [fst].
+      * apply reparent_nm in R. unfold nm_eq in *. simpl in R. lia.
       * unfold nm_eq in *. lia.
     + destruct (find_name s (ca :: ra)); cbn [fst]; [|lia]. destruct (find_name s (cb :: rb)); cbn [fst]; [lia|].
       match goal with |- context [let '(s1, ok) := ?X in _] => set (pr := X) end.
